@@ -4,7 +4,7 @@ import core, lib
 from core import call_matches, call_names, op_place, backward_slice
 from props import shared
 
-LEVEL = 'proof'
+LEVEL = 'other'
 FLOOR = 78      # 70% of the 112 obligation instances derived on the tree the rules were last reviewed against
 EXPLANATION = ('Clauses decided: publish-before-acknowledge in commit_raw, hand-over order between commit overlay / log overlay / tables, '
                'removal from overlays only by owner id, read layering (commit overlay -> log overlay -> file) under the overlay lock, '
@@ -20,6 +20,7 @@ def run(ctx):
     F = ctx.F
     shared.publish_before_ack(ctx, '1')
     shared.handover_order(ctx, '2')
+    shared.deferral_keeps_commit_order(ctx, '2')    # commit order also holds when a tree dereference in the same transaction is postponed
     shared.owner_id_removal(ctx, '3')
     shared.overlay_entries_replaced_whole(ctx, '3w', MAPS=shared.COMMIT_OVERLAY_MAPS, what='commit', key=' commit-overlay-entries-replaced-whole', floor=2)
     shared.read_layering(ctx, '4')
